@@ -24,6 +24,7 @@ func (x *Exec) fail(format string, a ...interface{}) {
 type WriteSet struct {
 	Whole bool
 	Bases []string
+	New   map[string]bool // base -> object allocated by the function itself
 }
 
 type Exec struct {
@@ -49,6 +50,21 @@ type Exec struct {
 	defProps []string
 	inC11    bool
 	inputs   []NamedTerm
+	ownRoot  types.Type
+	storeNew bool
+	assumedClauses map[string]bool
+}
+
+func (x *Exec) ownerFor(key, base string, idx []string) *Owner {
+	if len(idx) != 0 || x.ownRoot == nil {
+		return nil
+	}
+	for _, h := range x.P.specs.Hooks {
+		if h.Elems && h.Key == key {
+			return &Owner{Key: key, Base: base, Root: x.ownRoot}
+		}
+	}
+	return nil
 }
 
 type loopInfo struct {
@@ -123,7 +139,7 @@ func (x *Exec) heapGet(st *State, l *LeafInfo) string {
 func (x *Exec) recordWrite(key, base string, whole bool) {
 	ws := x.written[key]
 	if ws == nil {
-		ws = &WriteSet{}
+		ws = &WriteSet{New: map[string]bool{}}
 		x.written[key] = ws
 	}
 	if whole {
@@ -132,10 +148,14 @@ func (x *Exec) recordWrite(key, base string, whole bool) {
 	}
 	for _, b := range ws.Bases {
 		if b == base {
+			if !x.storeNew {
+				ws.New[base] = false
+			}
 			return
 		}
 	}
 	ws.Bases = append(ws.Bases, base)
+	ws.New[base] = x.storeNew
 }
 
 func selectN(arr string, idx []string) string {
@@ -177,6 +197,7 @@ func (x *Exec) load(st *State, p Ptr) Value {
 	if err != nil {
 		x.fail("load: %v", err)
 	}
+	x.ownRoot = p.Root
 	return x.loadAt(st, t, key, p.Base, idx)
 }
 
@@ -191,13 +212,16 @@ func (x *Exec) loadAt(st *State, t types.Type, key, base string, idx []string) V
 		}
 		return r
 	case *types.Slice:
-		return SliceV{
-			Base: x.leafLoad(st, key+"#base", base, idx, "Int"),
-			Off:  x.leafLoad(st, key+"#off", base, idx, "(_ BitVec 64)"),
-			Len:  x.leafLoad(st, key+"#len", base, idx, "(_ BitVec 64)"),
-			Cap:  x.leafLoad(st, key+"#cap", base, idx, "(_ BitVec 64)"),
+		sv := SliceV{
+			Base: x.em.define("sl.base", "Int", x.leafLoad(st, key+"#base", base, idx, "Int")),
+			Off:  x.em.define("sl.off", "(_ BitVec 64)", x.leafLoad(st, key+"#off", base, idx, "(_ BitVec 64)")),
+			Len:  x.em.define("sl.len", "(_ BitVec 64)", x.leafLoad(st, key+"#len", base, idx, "(_ BitVec 64)")),
+			Cap:  x.em.define("sl.cap", "(_ BitVec 64)", x.leafLoad(st, key+"#cap", base, idx, "(_ BitVec 64)")),
 			Elem: u.Elem(),
+			Own:  x.ownerFor(key, base, idx),
 		}
+		x.assumeSliceWf(sv, st)
+		return sv
 	case *types.Interface:
 		return Iface{
 			Tag: x.leafLoad(st, key+"#tag", base, idx, "Int"),
@@ -227,7 +251,10 @@ func (x *Exec) store(st *State, p Ptr, v Value) {
 	if err != nil {
 		x.fail("store: %v", err)
 	}
+	saved := x.storeNew
+	x.storeNew = p.New
 	x.storeAt(st, t, key, p.Base, idx, v)
+	x.storeNew = saved
 }
 
 func (x *Exec) storeAt(st *State, t types.Type, key, base string, idx []string, v Value) {
@@ -583,7 +610,11 @@ func (x *Exec) iteValue(c string, a, b Value) Value {
 		return r
 	case SliceV:
 		bv := x.asSlice(b, av.Elem)
-		return SliceV{Base: ite(c, av.Base, bv.Base), Off: ite(c, av.Off, bv.Off), Len: ite(c, av.Len, bv.Len), Cap: ite(c, av.Cap, bv.Cap), Elem: av.Elem}
+		r := SliceV{Base: ite(c, av.Base, bv.Base), Off: ite(c, av.Off, bv.Off), Len: ite(c, av.Len, bv.Len), Cap: ite(c, av.Cap, bv.Cap), Elem: av.Elem}
+		if av.Own != nil && bv.Own != nil && av.Own.Key == bv.Own.Key && av.Own.Base == bv.Own.Base {
+			r.Own = av.Own
+		}
+		return r
 	case Iface:
 		bv := x.asIface(b, av.Typ)
 		r := Iface{Tag: ite(c, av.Tag, bv.Tag), Ref: ite(c, av.Ref, bv.Ref), Typ: av.Typ}
@@ -1017,21 +1048,47 @@ func (x *Exec) loopHeader(fr *Frame, l *loopInfo, stEntry *State, ins []edgeIn, 
 		ws := disc[k]
 		lf := x.leaves[k]
 		whole := ws.Whole
+		innerNew := false // objects allocated inside the loop body were written
+		var outside []string
 		for _, bt := range ws.Bases {
 			if definedAfter(bt, mark) {
-				whole = true
+				if ws.New[bt] {
+					innerNew = true
+				} else {
+					whole = true
+				}
+			} else {
+				outside = append(outside, bt)
 			}
 		}
 		if whole {
 			st.Heap[k] = x.em.freshConst("Hh."+k, lf.ArraySort())
 			x.recordWrite(k, "", true)
+			continue
+		}
+		cur := x.heapGet(st, lf)
+		for _, bt := range outside {
+			f := x.em.freshConst("Hv."+k, lf.InnerSort(0))
+			cur = "(store " + cur + " " + bt + " " + f + ")"
+			saved := x.storeNew
+			x.storeNew = ws.New[bt]
+			x.recordWrite(k, bt, false)
+			x.storeNew = saved
+		}
+		if innerNew {
+			// only objects created by earlier iterations differ: everything that
+			// existed at loop entry keeps its value
+			cur = x.em.define("Hh."+k, lf.ArraySort(), cur)
+			nw := x.em.freshConst("Hn."+k, lf.ArraySort())
+			q := x.em.fresh("r")
+			x.em.assume(fmt.Sprintf("(forall ((%s Int)) (! (=> (<= %s %s) (= (select %s %s) (select %s %s))) :pattern ((select %s %s))))",
+				q, q, stEntry.Frontier, nw, q, cur, q, nw, q))
+			st.Heap[k] = nw
+			saved := x.storeNew
+			x.storeNew = true
+			x.recordWrite(k, x.em.fresh("loopnew"), false)
+			x.storeNew = saved
 		} else {
-			cur := x.heapGet(st, lf)
-			for _, bt := range ws.Bases {
-				f := x.em.freshConst("Hv."+k, lf.InnerSort(0))
-				cur = "(store " + cur + " " + bt + " " + f + ")"
-				x.recordWrite(k, bt, false)
-			}
 			st.Heap[k] = x.em.define("Hh."+k, lf.ArraySort(), cur)
 		}
 	}
@@ -1040,6 +1097,11 @@ func (x *Exec) loopHeader(fr *Frame, l *loopInfo, stEntry *State, ins []edgeIn, 
 	st.Frontier = nf
 	for _, phi := range phis {
 		fr.vals[phi] = x.freshValue(phi.Type(), phi.Comment, st)
+		if phi.Comment == "rangeindex" {
+			// range loops over slices: the hidden index starts at -1 and is bounded by len
+			t := x.term(fr.vals[phi])
+			x.em.assume("(and (bvsge " + t + " #xffffffffffffffff) (bvslt " + t + " " + maxCap + "))")
+		}
 	}
 	// 4. assume invariant
 	if l.spec != nil {
